@@ -70,7 +70,8 @@ def gen_history(rng, n, watch=False):
             ops.append("ckd:%d:%d" % (rng.randrange(nh), rng.choice(idxs_now)))
             nh += 1
         elif r < 0.38:
-            a = rng.choice([0, 1, 5])
+            # bulk intervals also straddle the hardened boundary 2^31 (and sit just below 2^32) on private nodes
+            a = rng.choice([0, 1, 5] + ([H - 2, H - 1] if watch else [H - 1, H - 2, H, 2 ** 32 - 3]))
             b = a + rng.randint(0, 3)
             ops.append("gc:%d:%d:%d" % (rng.randrange(nh), a, b))
             nh += b - a
